@@ -5,6 +5,7 @@
 //!        nbverif catalog            dump the unit catalog of the current tree's prelude (JSON lines)
 
 mod catalog;
+mod h_arith;
 mod h_assert;
 mod h_c08;
 mod h_cmp;
@@ -13,6 +14,7 @@ mod h_html;
 mod h_list;
 mod h_parse;
 mod h_prog;
+mod h_simplify;
 mod session;
 mod sym;
 mod units;
@@ -40,6 +42,8 @@ const ENTRIES: &[(&str, Entry)] = &[
     ("h_c04_convert", h_conv::h_c04_convert),
     ("h_c04_scaling", h_conv::h_c04_scaling),
     ("h_c09_prog", h_prog::h_c09_prog),
+    ("h_c05_simplify", h_simplify::h_c05_simplify),
+    ("h_c03_arith", h_arith::h_c03_arith),
     ("h_c10_parse", h_parse::h_c10_parse),
     ("h_c18_step", h_list::h_c18_step),
     ("h_c18_hist", h_list::h_c18_hist),
